@@ -191,6 +191,9 @@ def c07_oracle(w, rng, root_idx, n0, snap0):
                         break
         if bad:
             return bad
+        bad += nested_data_independence(root, rng)
+        if bad:
+            return bad
         # independence: transform / edit one side, the other must not move
         side = rng.choice(['copy', 'orig'])
         victim, other = (c, root) if side == 'copy' else (root, c)
@@ -282,6 +285,53 @@ def c07_oracle(w, rng, root_idx, n0, snap0):
     return bad
 
 
+def nested_data_independence(netlist, rng):
+    """arbitrary user data (nested containers, as the EDIF reader stores EDIF.properties) must be
+    copied, not shared: edit it in a second clone / in the original and look at the other side"""
+    import copy
+    bad = []
+    targets = [netlist]
+    for lib in netlist.libraries:
+        targets.append(lib)
+        for d in lib.definitions:
+            targets.append(d)
+            targets += list(d.ports)[:1] + list(d.cables)[:1] + list(d.children)[:2]
+    if netlist.top_instance is not None:
+        targets.append(netlist.top_instance)
+    for t in targets:
+        t['EDIF.properties'] = [{'identifier': 'INIT', 'value': "4'h8", 'nest': {'deep': [1, 2]}}]
+    c2 = netlist.clone()
+
+    def collect(n):
+        out = [n] + ([n.top_instance] if n.top_instance is not None else [])
+        for lib in n.libraries:
+            out.append(lib)
+            for d in lib.definitions:
+                out.append(d)
+                out += list(d.ports) + list(d.cables) + list(d.children)
+        return [o for o in out if 'EDIF.properties' in o]
+    a, b = collect(netlist), collect(c2)
+    if len(a) != len(b):
+        bad.append('nested user data not carried to the copy')
+    for o in b:
+        o['EDIF.properties'][0]['value'] = 'changed-in-copy'
+        o['EDIF.properties'][0]['nest']['deep'].append(99)
+    for o in a:
+        v = o['EDIF.properties'][0]
+        if v['value'] != "4'h8" or v['nest']['deep'] != [1, 2]:
+            bad.append('editing nested user data of the copy changed the original %s %r' % (type(o).__name__, o.name))
+            break
+    for o in a:
+        o['EDIF.properties'][0]['identifier'] = 'changed-in-original'
+    for o in b:
+        if o['EDIF.properties'][0]['identifier'] != 'INIT':
+            bad.append('editing nested user data of the original changed the copy %s %r' % (type(o).__name__, o.name))
+            break
+    for t in targets:
+        del t['EDIF.properties']
+    return bad
+
+
 def names_known_finding(failures):
     return all(f.startswith('get_libraries(copy') or f.startswith('get_definitions(copy') or f.startswith('get_instances(copy') for f in failures)
 
@@ -341,7 +391,7 @@ def c09_oracle(w, netlist_idx, before):
 def gen_case(prop, seed, case):
     rng = random.Random('%d/%s/%d' % (seed, prop, case))
     depth = rng.choice([1, 2, 2, 3, 3, 4]) if prop != 'C07' else rng.choice([1, 2, 2, 3])
-    ops, info = netgen.build(rng, depth=depth, unnamed_rate=0.15 if prop == 'C07' else 0.0)
+    ops, info = netgen.build(rng, depth=depth, unnamed_rate={'C07': 0.15, 'C08': 0.3}.get(prop, 0.0), unnamed_cables=(prop == 'C08'))
     return rng, ops, info
 
 
